@@ -102,14 +102,16 @@ PROPS = {
 }
 
 PROPS["C01"] = {
-  "units": ["egress", "enc", "framer", "batch", "hsout"],
+  "units": ["egress", "enc", "framer", "batch", "hsout", "drivers"],
   "kani_quick": [], "kani_thorough": [],
   "claim": "Session-local byte-stream conservation, proved unbounded on the verbatim functions: EgressBuffer (push appends at the tail, advance(n) drops exactly n bytes from the front for every n and every chunking, "
            "push_priority inserts only after the partially written head chunk, counters follow the view) and the batch encoders (frame_contiguous / frame_vectored / NullFramer wrappers emit exactly enc_batches of the frames in batch order: "
            "nothing reordered, merged, dropped or duplicated); the two batch-assembly regions of the session actor's operational loop (carry-over arm and core-pipe arm, extracted verbatim as regions) keep 'batch ++ carry-over ++ core pipe' equal to the FIFO they started from, "
            "the core pipe is read only when the carry-over is empty, and every round with queued messages frames at least one; "
            "in the operational loop's ingress-read arm (regions of run_loop, unit hsout) protocol replies produced while parsing (PONG) are queued through EgressBuffer::push_priority in order and never written to the socket directly "
-           "(the byte stream belongs to the egress buffer: a direct write would land inside a partially written frame), and every decoded message is appended to the ingress queue in order. End-to-end delivery across tasks, pipes and the kernel is a whole-system property and is not claimed.",
+           "(the byte stream belongs to the egress buffer: a direct write would land inside a partially written frame), and every decoded message is appended to the ingress queue in order; "
+           "the two hand-written futures of the session (unit drivers): EgressDriver::poll keeps `bytes accepted by the socket ++ bytes pending` constant at EVERY exit (Ready, Pending, error: a partial write advances the buffer by exactly what was taken) and "
+           "terminates; IngressDriver::poll removes batches only from the front, in order, and an in-flight asynchronous send always carries the batch that is still at the front (popped only when that send completes). End-to-end delivery across tasks, pipes and the kernel is a whole-system property and is not claimed.",
   "level_note": "Sequential contracts on single-owner state (the session actor owns EgressBuffer exclusively). Not covered: the select!/loop structure around the two regions (which arm runs when), DEALER pending queue, inproc path, fibre channels, the 'accepted during connect' part.",
   "technique": "contract-based deductive verification (Verus on mechanically extracted real functions; abstract view + representation invariant)",
   "trusted_base": COMMON_TRUSTED + ["vstd VecDeque specs + assume_specification for VecDeque::front/is_empty",
@@ -332,14 +334,16 @@ PROPS["C10"] = {
 }
 
 PROPS["C09"] = {
-  "units": ["reqrep", "dealersend"],
+  "units": ["reqrep", "dealersend", "drivers"],
   "kani_quick": [], "kani_thorough": [],
   "claim": "Protocol-state part for REQ and REP only, proved on the verbatim async functions: a future can be dropped only where it returned Pending, i.e. at an await; "
            "before EVERY await of ReqSocket::send / recv / recv_multipart and RepSocket::recv / recv_multipart (the assertion is inserted mechanically at each `.await` of the extracted text) no write to the protocol state has happened yet, "
            "so dropping the call at any point leaves the lock-step state exactly as the call found it (the socket is not stuck: the next valid call is accepted), and the turn locks introduced by the C10 repairs are RAII guards released on drop. "
            "REP send_multipart takes the pending request in one critical section before its only await, so a dropped reply leaves the socket in ReadyToReceive (a valid resting state), never in between. "
            "DEALER frame-by-frame send (unit dealersend): at every await of DealerSocket::send the send transaction is either exactly as the call found it or closed (Idle), never half-consumed, "
-           "so a cancelled send() cannot leave the socket waiting for a completion signal nobody will send.",
+           "so a cancelled send() cannot leave the socket waiting for a completion signal nobody will send. "
+           "Session futures polled inside select! (unit drivers): every exit of EgressDriver::poll / IngressDriver::poll, Pending included, leaves the durable state (EgressBuffer, ingress_buffer) consistent, "
+           "so dropping them at any point neither loses nor duplicates bytes or batches.",
   "level_note": "Partial. Not covered: that no queued message is lost or duplicated when a recv future is dropped (ReadyPipeQueue::pop re-arms the ready list in a second await after the item was taken: whether that await can ever return Pending depends on "
                 "the ready-list capacity invariant, an interleaving property, see C08), whole-or-nothing delivery of a cancelled send (fibre channel futures), DEALER's send_multipart waiting behind a transaction, ROUTER's fragmented-send permit, "
                 "internal cancellation by timeouts. Drop semantics of the guards are Rust's, not modelled.",
